@@ -812,8 +812,14 @@ def edit_stream(ctx, pool, n):
             # whose tables share their names
             shape = (2, 2) if k % 8 < 4 else (1, 2)
             nm = "dup_across"
+        nm_b = nm
+        if kind == "tablename" and k % 8 >= 4:
+            # renames that change how much qualification a reference needs: names unique in the document before, shared
+            # by tables of different sheets afterwards (and the other way round)
+            shape = (2, 2) if k % 16 < 8 else (1, 2)
+            nm, nm_b = ("unique", "dup_across") if k % 16 < 12 else ("dup_across", "unique")
         a = gen_cfg(rng, shape, name_mode=nm, header_mode="mixed")
-        b = gen_cfg(rng, shape, name_mode=nm, header_mode="mixed")
+        b = gen_cfg(rng, shape, name_mode=nm_b, header_mode="mixed")
         # b differs from a only in the edited aspect
         merged = json.loads(json.dumps(a))
         for si, s in enumerate(merged):
@@ -903,6 +909,46 @@ def fixture_rename_stream(ctx, names=("create-formulas.numbers",)):
                     k = bad[0]
                     fails.append((f"stale-name-cache:fixture-{kind}-rename", {"fixture": name, "rename": [kind, si, ti], "cell": list(k)},
                                   f"{name}: after renaming {kind} {si if ti is None else (si, ti)} cell {k} prints {stale.get(k)!r}; after a cache refresh {fresh[k]!r} ({len(bad)} cells)"))
+    return fails
+
+
+def rename_scope_oracle(ctx):
+    """Implementation only (metamorphic): renames that change how much qualification a reference needs.  Two sheets, a
+    label that two tables of the second sheet share (so references to it carry the table name); the referenced table is
+    renamed to / away from a name that a table of the first sheet has.  After each rename the printed reference equals
+    the one printed after a forced refresh of the name cache."""
+    from numbers_parser import Document
+    fails = []
+    for variant in ("to-duplicate", "from-duplicate", "sheet-to-other-name"):
+        with warnings.catch_warnings():
+            warnings.simplefilter("ignore")
+            doc = Document(sheet_name="S1", table_name="T", num_rows=4, num_cols=4)
+            u = doc.sheets[0].add_table("U", num_rows=4, num_cols=4)
+            doc.add_sheet("S2", "V", num_rows=4, num_cols=4)
+            v = doc.sheets[1].tables[0]
+            w = doc.sheets[1].add_table("T" if variant != "to-duplicate" else "W", num_rows=4, num_cols=4)
+            v.write(0, 1, "a")
+            w.write(0, 1, "a")
+            u.write(1, 1, 0)
+            try:
+                u.cell(1, 1).formula = f"SUM({'S2::' if variant != 'to-duplicate' else ''}{w.name}::a)"
+                before = u.cell(1, 1).formula
+                if variant == "to-duplicate":
+                    w.name = "T"
+                elif variant == "from-duplicate":
+                    w.name = "W"
+                else:
+                    doc.sheets[1].name = "Other"
+                stale = u.cell(1, 1).formula
+                doc._model.name_ref_cache.mark_dirty()
+                fresh = u.cell(1, 1).formula
+            except Exception as e:  # noqa: BLE001
+                ctx.notes.append(f"rename_scope_oracle {variant}: {type(e).__name__}: {e}"[:200])
+                continue
+        ctx.count("rename-scope")
+        if stale != fresh:
+            fails.append((f"stale-name-cache:rename-{variant}", {"rename_scope": variant},
+                          f"{variant}: printed {before!r} before the rename, {stale!r} after it, {fresh!r} after a cache refresh"))
     return fails
 
 
@@ -1026,9 +1072,10 @@ def run(ctx: Ctx) -> int:
     if exe:
         step = max(1, len(recorded) // (3000 if ctx.quick else 20000))
         resolver_stream(ctx, exe, recorded[::step])
-    fails += edit_stream(ctx, pool, 12 if ctx.quick else 60)
+    fails += edit_stream(ctx, pool, 16 if ctx.quick else 64)
     fails += resize_stream(ctx, pool, 12 if ctx.quick else 80)
     fails += fixture_rename_stream(ctx)
+    fails += rename_scope_oracle(ctx)
     for sig, case, detail in fails:
         ctx.oracle_fail(sig, case, detail)
     return common.finish(ctx, search)
@@ -1054,6 +1101,13 @@ def search(ctx: Ctx, broken) -> list:
 
 
 def check_case(pool, case):
+    if "rename_scope" in case:
+        sub = common.Ctx("C09", "quick", 0, LEVEL)
+        try:
+            hits = [f for f in rename_scope_oracle(sub) if f[1]["rename_scope"] == case["rename_scope"]]
+        finally:
+            sub.cleanup()
+        return (hits[0][0], hits[0][2]) if hits else None
     if "rename" in case:
         sub = common.Ctx("C09", "quick", 0, LEVEL)
         try:
